@@ -61,9 +61,10 @@ FLAG_PROPS = {
 
 
 class Module:
-    def __init__(self, crate, prefix, sidecar=None, prim_summary=None, label=None):
+    def __init__(self, crate, prefix, sidecar=None, prim_summary=None, label=None, nested=()):
         self.crate = crate
         self.prefix = prefix
+        self.nested = tuple(n for n in nested if n != prefix and n.startswith(prefix + '::'))
         self.sidecar = sidecar
         self.label = label or prefix
         self.tag = sidecar.get('tag') if sidecar else None
@@ -72,7 +73,7 @@ class Module:
         self.stats = defaultdict(int)
         self.prim_summary = prim_summary or {}
         self.prims_no_unwind = self.prim_summary.get('no_unwind', True)
-        self.bodies = [b for b in crate.bodies if self.in_module(b.path)]
+        self.bodies = [b for b in crate.bodies if self.in_module(b.path) and (b.module == prefix or b.module is None)]
         self.records = {}     # v -> adt
         self.F = {}           # v -> [FieldCell]
         self.max_size = None
@@ -80,7 +81,13 @@ class Module:
 
     def in_module(self, path):
         p = self.prefix + '::'
-        return path.startswith(p) or path.startswith('<' + p) or path.startswith('<<' + p)
+        q = path.lstrip('<')
+        if not q.startswith(p):
+            return False
+        for n in self.nested:
+            if q.startswith(n + '::'):
+                return False
+        return True
 
     def record_variant_of_adt(self, path):
         if not path.startswith(self.prefix + '::'):
@@ -95,8 +102,8 @@ class Module:
             return None
         return self.record_variant_of_adt(geninterp.base_adt(ty))
 
-    def add(self, props, rule, fn, msg, key=None):
-        k = '%s|%s|%s' % (rule, self.tag or self.label, key or fn or '')
+    def add(self, props, rule, fn, msg, key=None, raw_key=None):
+        k = raw_key or '%s|%s|%s' % (rule, self.tag or self.label, key or fn or '')
         self.findings.append(Finding(props, rule, self.label, fn, msg, k, self.tag))
 
     # ------------------------------------------------------------------
@@ -121,7 +128,26 @@ class Module:
         # field tables from accessor pairs
         for v in vs:
             self.F[v] = self.field_table(v)
+        # zero-size fields of one type at one offset are indistinguishable in memory:
+        # rules compare field names modulo these groups
+        self.canon = {}
+        self.group_size = {}
+        for v in vs:
+            first = {}
+            cm, gs = {}, defaultdict(int)
+            for c in self.F[v]:
+                if c.size == 0:
+                    rep = first.setdefault((c.k, c.ty), c.name)
+                else:
+                    rep = c.name
+                cm[c.name] = rep
+                gs[rep] += 1
+            self.canon[v] = cm
+            self.group_size[v] = gs
         return True
+
+    def cn(self, v, name):
+        return self.canon.get(v, {}).get(name, name)
 
     def prim_call(self, body):
         """If the body is a single primitive call on `self.data`, return (prim, k, T)."""
@@ -267,9 +293,13 @@ class Module:
             self.add(['C03'], 'G-LAYOUT', None, 'rustc computes different (size, align) for the record types of one module: %s' % sizes, key='layout')
         caps = {}
         for v in sorted(self.records):
-            cl = self.crate.doc.get('cap_layouts', {}).get('%s::CappedRecord%d' % (self.prefix, v))
+            cl = self.crate.cap_layouts.get('%s::CappedRecord%d' % (self.prefix, v))
             if cl:
                 caps[v] = tuple(tuple(x) for x in cl)
+                self.stats['cap_layouts'] += len(cl)
+                for cap, size, align in cl:
+                    if size < cap or size % align or align != self.repr_align:
+                        self.add(['C03', 'C02'], 'G-LAYOUT', 'CappedRecord%d' % v, 'CappedRecord%d<%d> has size %d, align %d (repr(align(%d)))' % (v, cap, size, align, self.repr_align), key='cap.%d' % v)
         if caps and len(set(caps.values())) > 1:
             self.add(['C03'], 'G-LAYOUT', None, 'record types differ in layout for some capacity: %s' % caps, key='cap_layouts')
         self.stats['layout_records'] += len(self.records)
@@ -295,6 +325,25 @@ class Module:
                 self.add(['C02', 'C07'], 'G-CAP', fn, 'access of %s at offset %d is not a multiple of its alignment %d' % (ty, k, align), key='align.%d.%s' % (k, ty))
             if align and self.repr_align % align != 0:
                 self.add(['C02', 'C07'], 'G-CAP', fn, 'record types are repr(align(%d)) but hold a %s of alignment %d' % (self.repr_align, ty, align), key='repr.%s' % ty)
+
+    def check_dest(self):
+        """G-DEST (C07): an access through an alignment-requiring primitive whose receiver
+        is a bare RecordMaybeUninit local (alignment 1), not the field of a repr(align) record."""
+        seen = set()
+        for a in self.accesses:
+            ps = self.prim_summary.get(a['prim'])
+            if ps is None:
+                continue
+            self.stats['dest_checks'] += 1
+            if ps.get('aligned') and a['align'] > 1 and not a['in_record']:
+                key = (a['fn'], a['prim'], a['k'], a['ty'])
+                if key in seen:
+                    continue
+                seen.add(key)
+                self.add(['C07'], 'G-DEST', a['fn'],
+                         '%s::<%s>(%d) needs a %d-aligned address (the primitive uses an aligned access at %s) but its receiver is a local RecordMaybeUninit, whose alignment is 1 [%s]' % (
+                             a['prim'], a['ty'], a['k'], a['align'], ps.get('where'), a['span']),
+                         key='dest.%s.%s' % (a['prim'], re.sub(r'^.*::(CappedRecord|Record)', r'\1', a['fn'])))
 
     def check_disjoint(self):
         """G-DISJ: cells of one variant are pairwise byte-disjoint (size > 0)."""
@@ -362,7 +411,7 @@ class Module:
                 if ti[tr] and not fields_ok:
                     self.add(['C14'], 'G-AUTO', 'Record%d' % v,
                              'Record%d is %s although its field `%s: %s` is not' % (v, tr.capitalize(), offender.name, offender.ty),
-                             key='%d.%s.%s' % (v, tr, offender.ty))
+                             raw_key='G-AUTO|%s|%s' % (tr, offender.ty))
                 elif not ti[tr] and fields_ok:
                     self.add(['C14'], 'G-AUTO', 'Record%d' % v,
                              'Record%d is not %s although every field type is' % (v, tr.capitalize()), key='%d.%s.converse' % (v, tr))
@@ -455,6 +504,7 @@ class Module:
                 self.add(FLAG_PROPS.get(e.rule, ['C07']), e.rule, b.key, e.msg)
         self.check_presence(present)
         self.check_cap()
+        self.check_dest()
 
     def check_presence(self, present):
         vs = sorted(self.records)
@@ -603,7 +653,7 @@ class Module:
                 val = ret.fields.get(c.name)
                 got = self.origin(st, val) if val is not None else None
                 want = ('arg', 1, 'cell', c.name)
-                if got != want:
+                if got != want and not (got and got[:3] == want[:3] and self.cn(v, got[-1]) == self.cn(v, c.name)):
                     self.add(['C04'], 'G-FIELD', b.key, 'unpack: field `%s` of the result has origin %s, expected the record\'s own `%s`' % (c.name, got, c.name), key='unpack.%d.%s' % (v, c.name))
             extra_f = set(ret.fields) - {c.name for c in self.F[v]}
             if extra_f:
@@ -654,7 +704,7 @@ class Module:
                     val = ret.fields.get(c.name)
                     got = self.origin(st, val) if val is not None else None
                     want = ('arg', 1, 0, 'cell', c.name)
-                    if got != want:
+                    if got != want and not (got and got[:4] == want[:4] and self.cn(u, got[-1]) == self.cn(u, c.name)):
                         self.add(props, 'G-FIELD', b.key, 'removed field `%s` handed back with origin %s, expected the old record\'s `%s`' % (c.name, got, c.name), key='conv.%d.out.%s' % (v, c.name))
                 extra_f = set(ret.fields) - {'record'} - {c.name for c in minus}
                 if extra_f:
@@ -710,7 +760,7 @@ class Module:
                     continue
                 o = self.origin(st, cell.val)
                 nm, kt, full = src_name(o)
-                ok = nm == c.name and full is not None and full[:3] == ('arg', 1, '*') and (kt is None or kt == (c.k, c.ty))
+                ok = nm is not None and self.cn(v, nm) == self.cn(v, c.name) and full is not None and full[:3] == ('arg', 1, '*') and (kt is None or kt == (c.k, c.ty))
                 if not ok:
                     self.add(props, 'G-CLONE', b.key, 'clone: field `%s` of the copy comes from %s, expected a clone/copy of the source\'s `%s`' % (c.name, o, c.name), key='clone.%d.%s' % (v, c.name))
                 if c.needs_drop and o and o[0] == 'arg':
@@ -728,8 +778,8 @@ class Module:
                         dst, src = a[0], a[1]
                         dname = dst[5][-1] if dst[5] else None
                         sname = src[5][-1] if src[5] else None
-                        if dst[5] and dst[5][:2] == ('arg', 1) and src[5] and src[5][:2] == ('arg', 2) and dname == sname and dst[4]:
-                            done[dname] += 1
+                        if dst[5] and dst[5][:2] == ('arg', 1) and src[5] and src[5][:2] == ('arg', 2) and dname is not None and sname is not None and self.cn(v, dname) == self.cn(v, sname) and dst[4]:
+                            done[self.cn(v, dname)] += 1
                         else:
                             self.add(props, 'G-CLONE', b.key, 'clone_from assigns `%s` of %s from `%s` of %s' % (dname, dst[5][:2] if dst[5] else None, sname, src[5][:2] if src[5] else None), key='clone_from.%d.%s' % (v, dname))
                     else:
@@ -738,13 +788,13 @@ class Module:
                     o = e[4]
                     # destination cell name
                     dn = [c.name for c in self.F[v] if (c.k, c.ty) == (e[2], e[3])]
-                    if o and o[:3] == ('arg', 2, '*') and dn and o[-1] == dn[0]:
-                        done[dn[0]] += 1
+                    if o and o[:3] == ('arg', 2, '*') and dn and self.cn(v, o[-1]) == self.cn(v, dn[0]):
+                        done[self.cn(v, dn[0])] += 1
                     else:
                         self.add(props, 'G-CLONE', b.key, 'clone_from stores a value of origin %s into %s' % (o, dn or (e[2], e[3])), key='clone_from.%d.%s' % (v, dn[0] if dn else e[2]))
-            for c in self.F[v]:
-                if done.get(c.name, 0) != 1:
-                    self.add(props, 'G-CLONE', b.key, 'clone_from assigns field `%s` %d times' % (c.name, done.get(c.name, 0)), key='clone_from.%d.%s.count' % (v, c.name))
+            for rep, n in self.group_size[v].items():
+                if done.get(rep, 0) != n:
+                    self.add(props, 'G-CLONE', b.key, 'clone_from assigns field `%s` %d times (expected %d)' % (rep, done.get(rep, 0), n), key='clone_from.%d.%s.count' % (v, rep))
 
     # -- serde
     def decl_order(self, v):
@@ -781,7 +831,8 @@ class Module:
                     got.append((a[5][-1], a[2], a[3]))
                 else:
                     got.append((None, a, None))
-            want = [(nm, cells[nm].k, cells[nm].ty) for nm in order if nm in cells]
+            want = [(self.cn(v, nm), cells[nm].k, cells[nm].ty) for nm in order if nm in cells]
+            got = [(self.cn(v, g[0]) if g[0] is not None else None, g[1], g[2]) for g in got]
             if got != want:
                 self.add(props, 'G-SERDE', b.key, 'serialize emits elements %s, declaration order is %s' % ([g[0] for g in got], [w[0] for w in want]), key='ser.%d.order' % v)
         if ok_paths == 0:
@@ -823,8 +874,10 @@ class Module:
                     self.add(props, 'G-SERDE', b.key, 'decoded record lacks field `%s`' % nm, key='de.%d.%s' % (v, nm))
                     continue
                 ids = self.find_calls(self.origin(st, cell.val), 'SeqAccess::next_element', set())
-                if ids != {calls[pos][0]}:
-                    which = [k for k, (i, _) in enumerate(calls) if i in ids]
+                which = [k for k, (i, _) in enumerate(calls) if i in ids]
+                names_in_order = [n for n in order if n in cells]
+                same_group = len(which) == 1 and len(ids) == 1 and self.cn(v, names_in_order[which[0]]) == self.cn(v, nm)
+                if ids != {calls[pos][0]} and not same_group:
                     self.add(props, 'G-SERDE', b.key, 'field `%s` (position %d) is built from decoded element(s) %s' % (nm, pos, which), key='de.%d.%s' % (v, nm))
         if ok_paths == 0:
             self.add(props, 'G-SERDE', b.key, 'visitor has no successful path', key='de.%d.ok' % v)
@@ -863,7 +916,18 @@ class Module:
         pass
 
 
-def check_module(crate, prefix, sidecar=None, prim_summary=None, label=None):
-    m = Module(crate, prefix, sidecar, prim_summary, label)
+def generated_modules(crate):
+    """Module paths of a crate that look like truc output."""
+    out = []
+    for p in crate.consts:
+        if p.endswith('::MAX_SIZE'):
+            pre = p[:-len('::MAX_SIZE')]
+            if (pre + '::CappedRecord0') in crate.adts or (pre + '::RecordUninitialized') in crate.adts:
+                out.append(pre)
+    return sorted(out)
+
+
+def check_module(crate, prefix, sidecar=None, prim_summary=None, label=None, nested=()):
+    m = Module(crate, prefix, sidecar, prim_summary, label, nested)
     m.run_all()
     return m
